@@ -544,11 +544,29 @@ func (r *vRun) writeVideo(ti int) {
 		// an implementation that checks eagerly, the one being written) do not fit into the open segment
 		verifAssert("C18", "write-refused-only-for-the-size-limit", err == nil || uint64(g.openSize+len(t.held.payload)+len(u.payload)) > g.maxSize)
 	}
-	verifAssume(err == nil)
+	tsSize := g.maxSize != 0 && g.variant == MuxerVariantMPEGTS
+	if !tsSize {
+		verifAssume(err == nil)
+	}
 	cut := false
 	if accepted {
 		cut = g.accept(u)
 	}
+	if tsSize && accepted {
+		// MPEG-TS writes the access unit at once (into the new segment when this unit cuts): the write fails exactly
+		// when the unit's NAL units do not fit into that segment any more
+		if cut {
+			g.openSize = 0
+		}
+		if uint64(g.openSize+len(u.raw)) > g.maxSize {
+			verifReach("size-limit")
+			verifAssert("C18", "write-exceeding-segmentmaxsize-fails", err != nil)
+			verifStopPath()
+		}
+		verifAssert("C18", "write-refused-only-for-the-size-limit", err == nil)
+		g.openSize += len(u.raw)
+	}
+	verifAssume(err == nil)
 	after := r.m.streams[0].nextSegmentID
 	r.checkCut(cut, before, after)
 }
